@@ -13,7 +13,7 @@ package cluster
 // The routing table: the local node is always present and active, every node
 // is stored under its own id.
 //@ pure stInv(s *State) bool = s.nodes != nil && s.localID in s.nodes
-//@    && (forall id string {s.nodes[id]} :: id in s.nodes ==> s.nodes[id] != nil && s.nodes[id].ID == id)
+//@    && (forall id string {s.nodes[id]} :: id in s.nodes ==> s.nodes[id] != nil && s.nodes[id].ID == id && allocated(s.nodes[id]) && allocated(s.nodes[id].Endpoints))
 //@    && s.nodes[s.localID].Status == NodeStatusActive
 //@    && (forall e string :: s.nodes[s.localID].Endpoints[e] >= 0)
 
@@ -76,3 +76,21 @@ package cluster
 //@   serves C05
 //@   ensures[count] result == localCount(s, endpointID)
 //@   ensures[read-only] localCount(s, endpointID) == old(localCount(s, endpointID))
+
+//@ contract (*State).Nodes
+//@   serves C19 C20
+//@   ghost-set gNodes = len(result)
+//@   opt frame true
+//@   loop 1 frame elems(nodes)
+//@   loop 1 invariant[fresh] fresh(nodes) && (arr(nodes) == oldloop(arr(nodes)) || loopfresh(nodes))
+//@   loop 1 invariant[inv] stInv(s)
+
+//@ contract (*State).AvgConns
+//@   serves C19 C20
+//@   ghost-set gAvg = result
+//@   opt frame true
+//@   ensures[env-bound] 0 <= result && result <= 4294967296
+//@   loop 1 invariant[inv] stInv(s)
+//@   loop 1 invariant[counted] nodes >= 0 && (s.localID in seen ==> nodes >= 1)
+//@   loop 2 invariant[inv] stInv(s)
+//@   loop 2 invariant[counted] nodes >= 0 && (s.localID in seen ==> nodes >= 0)
